@@ -29,7 +29,7 @@ CLAIM = {
     "design": "DESIGN.md 4/C02 + design_notes/C02.md",
 }
 GEN_FILES = ["KHydIncompNp", "KHydIncompNb", "KHydCompNp", "KHydCompNb", "KPmNp", "KFriction", "KBasicRes", "KGasResNp",
-             "KPamb"]
+             "KGasResNb", "KPamb"]
 GEN = kernels.gen_entries(GEN_FILES)
 
 
@@ -52,40 +52,45 @@ def monitor(ctx, wide=False):
     for i in range(n):
         prof = ["water", "gas", "heat"][i % 3]
         fm = fms[(i // 3) % 3]
-        nb = (i // 9) % 4 == 3 if ctx.quick else (i // 9) % 2 == 1          # numba JIT once per process
         feats = {"fluid": gen.GASES[(i // 3) % len(gen.GASES)]} if prof == "gas" else None
         try:
             spec = gen.gen_net(ctx.rng, prof, size=None if ctx.quick else ctx.rng.randint(3, 25), features=feats)
-            net = gen.build(spec)
+            if prof != "heat" and (i // 3) % 2 == 0:
+                spec = L.vary_temperatures(ctx.rng, spec)          # per-junction tfluid_k
+            gen.build(spec)
         except Exception as e:
             ctx.count("generator_or_build_error:" + type(e).__name__)
             continue
-        st, msg = drive.run(net, friction_model=fm, use_numba=nb, mode="hydraulics", **L.TIGHT)
-        ctx.count("run:%s/%s/%s/%s" % ("gas" if spec["fluid"] != "water" else prof, fm, "numba" if nb else "numpy", st))
-        if st != "ok":
-            n_nc += 1
-            ctx.case({"spec": spec, "friction_model": fm, "status": st}, False)
-            continue
-        try:
-            k, kf, bad = L.check_net(net, fm)
-        except Exception as e:
-            ctx.broken("monitor", "c02_law.check_net raised", repr(e))
-            continue
-        n_sec += k
-        n_flow += kf
-        d = gen.describe(spec)
-        rich = kf > 0 and (d["multi_section"] > 0 or any(kw.get("height_m") for f_, kw in spec["ops"])
-                           or any(kw.get("loss_coefficient") for f_, kw in spec["ops"]))
-        ctx.case({"spec": spec, "friction_model": fm, "use_numba": nb, "sections": k, "flowing": kf}, rich)
-        for what, s, lhs, rhs in bad[:3]:
-            ctx.violation({"clause": what.split(":")[0].split("(")[0].strip(), "table": s["tbl"], "friction_model": fm,
-                           "gas": spec["fluid"] != "water"},
-                          "%s: %s %s section %d: %r vs %r (m = %r kg/s, l = %r m, dh = %r m, zeta = %r)"
-                          % (what, s["tbl"], s["idx"], s["section"], lhs, rhs, s["m"], s["l"], s["dh"], s["zeta"]),
-                          {"spec": spec, "friction_model": fm, "use_numba": nb, "options": L.TIGHT, "section": s,
-                           "lhs": lhs, "rhs": rhs,
-                           "how": "net = harness.gen.build(spec); pipeflow(net, friction_model=..., **options); "
-                                  "harness.c02_law.check_net(net, friction_model)"})
+        # gas nets: both engines on the same net (the gas post-processing exists twice); others alternate
+        engines = (False, True) if prof == "gas" else ((i // 9) % 2 == 1,)
+        for nb in engines:
+            net = gen.build(spec)
+            st, msg = drive.run(net, friction_model=fm, use_numba=nb, mode="hydraulics", **L.TIGHT)
+            ctx.count("run:%s/%s/%s/%s" % ("gas" if spec["fluid"] != "water" else prof, fm, "numba" if nb else "numpy", st))
+            if st != "ok":
+                n_nc += 1
+                ctx.case({"spec": spec, "friction_model": fm, "status": st}, False)
+                continue
+            try:
+                k, kf, bad = L.check_net(net, fm)
+            except Exception as e:
+                ctx.broken("monitor", "c02_law.check_net raised", repr(e))
+                continue
+            n_sec += k
+            n_flow += kf
+            d = gen.describe(spec)
+            rich = kf > 0 and (d["multi_section"] > 0 or any(kw.get("height_m") for f_, kw in spec["ops"])
+                               or any(kw.get("loss_coefficient") for f_, kw in spec["ops"]) or spec.get("nonuniform_t"))
+            ctx.case({"spec": spec, "friction_model": fm, "use_numba": nb, "sections": k, "flowing": kf}, rich)
+            for what, s, lhs, rhs in bad[:3]:
+                ctx.violation({"clause": what.split(":")[0].split("(")[0].strip(), "table": s["tbl"], "friction_model": fm,
+                               "gas": spec["fluid"] != "water", "use_numba": nb},
+                              "%s: %s %s section %d: %r vs %r (m = %r kg/s, l = %r m, dh = %r m, zeta = %r, use_numba=%s)"
+                              % (what, s["tbl"], s["idx"], s["section"], lhs, rhs, s["m"], s["l"], s["dh"], s["zeta"], nb),
+                              {"spec": spec, "friction_model": fm, "use_numba": nb, "options": L.TIGHT, "section": s,
+                               "lhs": lhs, "rhs": rhs,
+                               "how": "net = harness.gen.build(spec); pipeflow(net, friction_model=..., **options); "
+                                      "harness.c02_law.check_net(net, friction_model)"})
     ctx.count("sections_checked", n_sec)
     ctx.count("sections_flowing", n_flow)
     ctx.count("nets_not_converged", n_nc)
